@@ -79,6 +79,14 @@ impl Vt {
     }
 }
 
+#[cfg(feature = "verif")]
+impl Vt {
+    /// Hidden terminal state, for external verification harnesses only.
+    pub fn verif_state(&self) -> crate::terminal::VerifState {
+        self.terminal.verif_state()
+    }
+}
+
 pub struct Builder {
     size: (usize, usize),
     scrollback_limit: Option<usize>,
